@@ -22,7 +22,9 @@ import vlib
 
 
 class C20bPart:
-    extra_coq_targets = ["theories/Check/C20b.vo", "theories/Props/C20b.vo"]
+    extra_coq_targets = ["theories/Check/C20b.vo", "theories/Check/C20b_Hls.vo", "theories/Props/C20b.vo"]
+    c20hls_driver = dict(pkg="internal/servers/hls", test="TestVerifC20Hls", timeout=600)
+    c20hls_n_quick, c20hls_n_thorough = 18, 180
     c20b_driver = dict(pkg="internal/servers/rtsp", test="TestVerifC20b", timeout=600)
     c20b_n_quick, c20b_n_thorough, c20b_shard = 100, 6000, 100
 
@@ -90,8 +92,58 @@ class C20bPart:
         return notes
 
     # ---- second evaluation -------------------------------------------------------------------------------------------
+    # ---- third evaluation: HLS front end (real hls.Server, gated path manager) against MTX.Check.C20b_Hls ------------
+    def _c20hls(self, ctx, out):
+        if not os.path.exists(os.path.join(vlib.COQ, "theories", "Check", "C20b_Hls.vo")):
+            out.append(dict(kind="model-build", what="Check/C20b_Hls.vo was not built"))
+            return
+        d = self.c20hls_driver
+        n = self.c20hls_n_quick if ctx.tier == "quick" else self.c20hls_n_thorough
+        wd = vlib.ensure_dir(os.path.join(ctx.workdir, "c20hls"))
+        outp = os.path.join(wd, "driver_c20hls_%d.jsonl" % n)
+        if os.path.exists(outp):
+            os.remove(outp)
+        env = {"VERIF_SEED": ctx.seed, "VERIF_N": n, "VERIF_OUT": outp, "VERIF_TIER": ctx.tier, "VERIF_WORK": wd}
+        rc, o = vlib.run_driver(wd, d["pkg"], d["test"], env, timeout=d["timeout"])
+        allrows = vlib.read_jsonl(outp) if os.path.exists(outp) else []
+        rows = [r for r in allrows if "summary" not in r]
+        summ = [r["summary"] for r in allrows if "summary" in r]
+        for i, r in enumerate(rows):
+            r["id"] = i
+            r["driver"] = d["test"]
+        if rc != 0:
+            out.append(dict(kind="driver", what="driver %s failed (rc=%d):\n%s" % (d["test"], rc, o[-4000:])))
+        if not rows:
+            if rc == 0:
+                out.append(dict(kind="driver", what="driver %s produced no case" % d["test"]))
+            return
+        res = vlib.eval_cases(wd, "C20b_Hls", [(r["id"], r["coq"]) for r in rows], shard=60)
+        for e in res["errors"]:
+            out.append(dict(kind="cases-eval", what=e))
+        byid = {r["id"]: r for r in rows}
+        sf = set(res["spec_failures"])
+        for i in res["spec_failures"]:
+            out.append(dict(kind="spec", case=byid[i],
+                            what="runOnRead/runOnUnread lines of the HLS sessions of one path do not form one "
+                                 "start/stop pair per admitted reader (closed after Server.Close)"))
+        mm = [i for i in res["mismatches"] if i not in sf]
+        if mm:
+            out.append(dict(kind="correspondence",
+                            what="C20b: HLS muxer model and implementation differ on %d case(s), e.g. %s" % (
+                                len(mm), json.dumps([byid[i]["desc"] for i in mm[:2]], default=str)[:1800])))
+        feats = (summ[0].get("extra", {}).get("features", {}) if summ else {})
+        nt = sum(1 for r in rows if r.get("nontrivial"))
+        ctx.notes.append("C20 HLS driver: %d cases (%d with an admitted reader), spec failures %d, mismatches %d; "
+                         "operations: %s" % (len(rows), nt, len(res["spec_failures"]), len(res["mismatches"]),
+                                             json.dumps(dict(sorted(feats.items())))))
+        if nt * 2 < len(rows):
+            out.append(dict(kind="driver", what="C20 HLS driver: only %d of %d cases admit a reader" % (nt, len(rows))))
+        if rc == 0 and feats.get("sessions-held-together", 0) < 4:
+            out.append(dict(kind="driver", what="C20 HLS driver: concurrent first requests were not exercised"))
+
     def extra_checks(self, ctx, cases):
         out = list(super().extra_checks(ctx, cases) or [])
+        self._c20hls(ctx, out)
         # (1) Props/C20b.v: every theorem closed under the global context
         if os.path.exists(os.path.join(vlib.COQ, "theories", "Props", "C20b.vo")):
             rep = vlib.props_report("C20b", ctx.workdir)
